@@ -81,6 +81,10 @@ EXPLANATION += (
     ' Mean and variance of a node are S / N and (Q - S^2/N)/(N - 1) of the summed statistics (R-ARITH/moments, rule of C11); counts per million are 10^6 * data / row total (R-ARITH/cpm, rule of C07).'
 )
 
+EXPLANATION += (
+    " Round 10: the sparse readers do not place values by pointer scatter (rule of C05); positions found in the label array of a chunk are positions of the chunk's rows (R-SPACE/chunk-row-positions)."
+)
+
 RULE_TEXT = (
     "one obligation per key of each producer, per required read, per "
     "merge loop, per statistic, per use of the row index")
